@@ -753,3 +753,79 @@ Proof.
     apply map_nth_seq_gen. }
   rewrite <- HV, combs_map, map_map. reflexivity.
 Qed.
+
+(* ---- the code's inner sum for one kappa = Rk x factor, GIVEN that Q(kappa+1, .) counts connected graphs *)
+Lemma all_edges_S_length kappa : length (all_edges (S kappa)) = (length (all_edges kappa) + kappa)%nat.
+Proof. pose proof (all_edges_len2 (S kappa)). pose proof (all_edges_len2 kappa). nia. Qed.
+
+Lemma clique_inner_sum phi tau kappa (factor : Q) :
+  (kappa < tau)%nat ->
+  (forall k, (0 <= k <= tri (Z.of_nat (S kappa)))%Z -> Qv (S kappa) k = brute (S kappa) (Z.to_nat k)) ->
+  qsum (map (fun m =>
+          let kz := Z.of_nat kappa in
+          let e := (kz * (kz + 1) / 2 - m)%Z in
+          inject_Z (Qv (S kappa) e) * qpow phi e * qpow (1 - phi) (omega tau kappa + m) * factor)
+        (zrange 0 (Z.of_nat kappa * (Z.of_nat kappa - 1) / 2 + 1))) ==
+  Rk phi tau kappa * factor.
+Proof.
+  intros Hk HQ. cbv zeta.
+  set (Tn := length (all_edges (S kappa))). set (M := length (all_edges kappa)).
+  assert (HTn : Tn = (M + kappa)%nat) by apply all_edges_S_length.
+  assert (HMz : (Z.of_nat kappa * (Z.of_nat kappa - 1) / 2 = Z.of_nat M)%Z).
+  { unfold M. rewrite all_edges_length. reflexivity. }
+  assert (HTz : (Z.of_nat kappa * (Z.of_nat kappa + 1) / 2 = Z.of_nat Tn)%Z).
+  { unfold Tn. rewrite all_edges_length. unfold tri. f_equal. rewrite Nat2Z.inj_succ. unfold Z.succ. ring. }
+  assert (HTtri : tri (Z.of_nat (S kappa)) = Z.of_nat Tn) by (unfold Tn; rewrite all_edges_length; reflexivity).
+  rewrite HMz, HTz.
+  replace (Z.of_nat M + 1)%Z with (0 + Z.of_nat (S M))%Z by lia. rewrite zrange_seq, map_map.
+  unfold Rk. fold Tn. rewrite (qsum_rev_seq (fun e => inject_Z (brute (S kappa) e) * W phi Tn e) Tn).
+  replace (S Tn) with (S M + kappa)%nat by lia. rewrite seq_app, map_app, qsum_app.
+  rewrite (qsum_zero _ (seq (0 + S M) kappa)).
+  2:{ intros m Hm. apply in_seq in Hm.
+      assert (Hz : brute (S kappa) (Tn - m) = 0%Z).
+      { rewrite <- (Nat2Z.id (Tn - m)), <- HQ by lia. apply Qv_out_of_range; lia. }
+      cbv beta. rewrite Hz. change (inject_Z 0) with 0. ring. }
+  rewrite Qplus_0_r, <- qsum_scale_r, <- qsum_scale_r. apply qsum_map_ext. intros m Hm. apply in_seq in Hm.
+  replace (Z.of_nat Tn - (0 + Z.of_nat m))%Z with (Z.of_nat (Tn - m)) by lia.
+  rewrite (omega_closed tau kappa Hk).
+  replace (Z.of_nat (S kappa * (tau - S kappa)) + (0 + Z.of_nat m))%Z
+    with (Z.of_nat (S kappa * (tau - S kappa) + m)) by lia.
+  rewrite !qpow_nat, qpn_add, HQ by lia. rewrite Nat2Z.id.
+  unfold W. replace (Tn - (Tn - m))%nat with m by lia. ring.
+Qed.
+
+(* REDUCTION: if Q(n,k) is the number of connected labelled graphs with n vertices and k edges for every n <= N,
+   then the clique equation is the exact expectation on K_tau for every 2 <= tau <= N, every rational phi and
+   every heterogeneous list of tau - 1 neighbour values *)
+Theorem clique_identity_from_Q_count N :
+  (forall n k, (1 <= n <= N)%nat -> (0 <= k <= tri (Z.of_nat n))%Z -> Qv n k = brute n (Z.to_nat k)) ->
+  forall tau, (2 <= tau <= N)%nat ->
+  forall (phi : Q) (Hs : list Q), length Hs = (tau - 1)%nat ->
+    clique_val tau phi Hs == exact_val (seq 0 tau) (all_edges tau) 0 phi (fun v => nth (v - 1) Hs 0).
+Proof.
+  intros HQ tau Ht phi Hs HH.
+  rewrite (exact_clique_regrouped tau phi Hs) by (assumption || lia).
+  unfold clique_val. apply qsum_map_ext. intros kappa Hk. apply in_seq in Hk. cbv zeta.
+  apply (clique_inner_sum phi tau kappa (qsum (map qprod (combs kappa Hs)))); [lia|].
+  intros k Hkr. apply HQ; [lia | exact Hkr].
+Qed.
+
+(* the unbounded form: the ONLY missing ingredient of the clique identity for all tau is the count *)
+Theorem clique_identity_reduces_to_Q_count :
+  (forall n k, (1 <= n)%nat -> (0 <= k <= tri (Z.of_nat n))%Z -> Qv n k = brute n (Z.to_nat k)) ->
+  forall tau, (2 <= tau)%nat ->
+  forall (phi : Q) (Hs : list Q), length Hs = (tau - 1)%nat ->
+    clique_val tau phi Hs == exact_val (seq 0 tau) (all_edges tau) 0 phi (fun v => nth (v - 1) Hs 0).
+Proof.
+  intros HQ tau Ht. apply (clique_identity_from_Q_count tau); [|lia].
+  intros n k Hn Hk. apply HQ; [lia | exact Hk].
+Qed.
+
+(* independent re-derivation of the reflection result: tau <= 6 from Q = brute for n <= 6 *)
+Theorem clique_identity_upto_6_via_count : forall tau, (2 <= tau <= 6)%nat ->
+  forall (phi : Q) (Hs : list Q), length Hs = (tau - 1)%nat ->
+    clique_val tau phi Hs == exact_val (seq 0 tau) (all_edges tau) 0 phi (fun v => nth (v - 1) Hs 0).
+Proof.
+  apply (clique_identity_from_Q_count 6). intros n k Hn Hk.
+  destruct (Q_count_upto_6 n k Hn Hk) as [H1 H2]. congruence.
+Qed.
